@@ -95,6 +95,10 @@ def int_values(W, A, ty):
         if k < w:
             vals |= {1 << k, (1 << k) + (1 << (k - dig)) if k > dig else 1, (1 << k) + (3 << (k - dig - 1)) if k > dig + 1 else 1,
                      ((1 << (dig + 1)) - 1) << (k - dig) if k > dig else 1}
+    for k in (60, 62, 100, w - 2):
+        if dig < k < w:
+            vals |= {(1 << k) + (1 << (k - dig)) + 1, (1 << k) + (1 << (k - dig)) - 1, (1 << k) + (3 << (k - dig)) + 1,
+                     (1 << k) + (1 << (k - dig)) + (1 << (k - 54)) if k > 54 else 1}
     out = []
     for v in sorted(vals):
         if lo <= v <= hi:
@@ -136,7 +140,7 @@ def obligations(ctx, tier):
                         bits |= 1 << (31 if ty == "f32" else 63)
                     return ("val", FL(ty, bits))
                 reps2 = []
-                for j in range(70):
+                for j in range(110):
                     def env2(W, j=j, A=A, ty=ty):
                         iv = int_values(W, A, ty)
                         return {0: W.wrap(A, iv[j % len(iv)])}
